@@ -9,6 +9,7 @@ func HC01Charset() {
 	which := vChoice("fn", 4)
 	raw := vBytes("raw", 0, maxN)
 	var r string
+	vWatch(raw)
 	switch which {
 	case 0:
 		r = FromPlain(raw)
@@ -19,6 +20,7 @@ func HC01Charset() {
 	case 3:
 		r = FromHTML(raw)
 	}
+	vAssert(vWritten() == 0, "input-not-written")
 	vNote("charset", r)
 	vReach("end")
 }
